@@ -106,14 +106,36 @@ Proof.
     rewrite (IH s1 s' H F2). eapply junk_step; eauto.
 Qed.
 
+(* without SkipReferrersGC and without a failed deletion: when nobody is updating, every
+   index manifest of the tag in the registry is the current one, or was ALREADY dangling
+   at the start (it is not the initial index: that one has been deleted) *)
 Lemma gc_clean r0 st0 tr s :
   run false (init r0 st0) tr = Some s ->
   forallb (fun e => negb (del_failed e)) tr = true ->
   (forall t, is_main (pcs s t) = false) ->
-  forall x, In x (store s) -> reg s = Some x \/ In x st0.
+  forall x, In x (store s) -> reg s = Some x \/ (In x st0 /\ r0 <> Some x).
 Proof.
   intros H F Hn x Hx. destruct (gc_store _ _ _ _ _ H Hn x Hx) as [E|E]; auto.
-  right. rewrite (junk_run _ _ _ H F) in E. exact E.
+  right. rewrite (junk_run _ _ _ H F) in E. simpl in E. apply filter_In in E as [E1 E2].
+  split; auto. intro Er. subst r0. simpl in E2. rewrite index_eqb_refl in E2. discriminate.
+Qed.
+
+(* junk grows by exactly one entry per failed index deletion *)
+Lemma junk_count_step s e s' :
+  step false s e = Some s' ->
+  length (junk s') = (length (junk s) + (if del_failed e then 1 else 0))%nat.
+Proof.
+  intros H. destruct e; simpl in H; step_inv H; simpl; auto; try lia; try discriminate.
+Qed.
+
+Lemma junk_count tr : forall s s',
+  run false s tr = Some s' ->
+  length (junk s') = (length (junk s) + length (filter del_failed tr))%nat.
+Proof.
+  induction tr as [|e tr IH]; intros s s' H; simpl in *.
+  - injection H as <-. lia.
+  - destruct (step false s e) as [s1|] eqn:E; [|discriminate].
+    rewrite (IH s1 s' H), (junk_count_step _ _ _ E). destruct (del_failed e); simpl; lia.
 Qed.
 
 (* ---------- SetReferrersCapability ---------- *)
@@ -170,9 +192,16 @@ Qed.
 
 (* ---------- progress: the protocol never blocks by itself ---------- *)
 
-Lemma main_enabled sg s t : is_main (pcs s t) = true -> exists e s', step sg s e = Some s'.
+(* events of the environment: a new call, another tag's update dropping a shared index *)
+Definition is_env (e : event) : bool := match e with EGet _ _ | EExtDrop => true | _ => false end.
+
+(* an enabled event that is not a new call *)
+Definition can_move (sg : bool) (s : state) : Prop :=
+  exists e s', is_env e = false /\ step sg s e = Some s'.
+
+Lemma main_enabled sg s t : is_main (pcs s t) = true -> can_move sg s.
 Proof.
-  intro H. destruct (pcs s t) as [|c0| | |old|nw o|oi ap|r|r|r] eqn:Hpc; try discriminate.
+  intro H. unfold can_move. destruct (pcs s t) as [|c0| | |old|nw o|oi ap|r|r|r] eqn:Hpc; try discriminate.
   - exists (EPrepare t false). simpl. rewrite Hpc. eauto.
   - exists (ECommit t). simpl. rewrite Hpc. destruct old as [o|]; [|eauto].
     destruct (apply_changes (idx o) (map snd (items s))) as [|new]; [eauto|].
@@ -183,7 +212,7 @@ Proof.
 Qed.
 
 Lemma progress sg s :
-  InvS s -> (exists t, holding (pcs s t) = true) -> exists e s', step sg s e = Some s'.
+  InvS s -> (exists t, holding (pcs s t) = true) -> can_move sg s.
 Proof.
   intros I (t & Ht).
   destruct (pcs s t) as [|c0| | |old|nw o|oi ap|r|r|r] eqn:Hpc; try discriminate;
@@ -207,9 +236,11 @@ Proof.
     assert (Hx : In t []) by (apply Hin; rewrite Hpc; reflexivity). destruct Hx.
 Qed.
 
+(* in every reachable state in which a caller is inside, an event OTHER than a new call
+   (EGet) is enabled *)
 Lemma no_deadlock sg r0 st0 tr s :
   run sg (init r0 st0) tr = Some s -> (exists t, holding (pcs s t) = true) ->
-  exists e s', step sg s e = Some s'.
+  exists e s', is_env e = false /\ step sg s e = Some s'.
 Proof. intros H Hh. eapply progress; eauto. eapply runS; eauto using invS_init. Qed.
 
 (* ---------- every execution without new calls is finite ---------- *)
@@ -237,8 +268,6 @@ Proof.
   - specialize (IH Hin). specialize (H h). lia.
 Qed.
 
-Definition is_get (e : event) : bool := match e with EGet _ _ => true | _ => false end.
-
 Lemma mu_upd L f t p :
   In t L -> (weight p < weight (f t))%nat -> (mu L (upd f t p) < mu L f)%nat.
 Proof.
@@ -255,7 +284,7 @@ Proof.
 Qed.
 
 Lemma step_decreases sg s e s' L :
-  InvS s -> step sg s e = Some s' -> is_get e = false ->
+  InvS s -> step sg s e = Some s' -> is_env e = false ->
   (forall t, holding (pcs s t) = true -> In t L) ->
   (mu L (pcs s') < mu L (pcs s))%nat /\ (forall t, holding (pcs s' t) = true -> In t L).
 Proof.
@@ -328,7 +357,7 @@ Qed.
 
 Lemma bounded_run sg L tr : forall s s',
   InvS s -> (forall t, holding (pcs s t) = true -> In t L) ->
-  forallb (fun e => negb (is_get e)) tr = true -> run sg s tr = Some s' ->
+  forallb (fun e => negb (is_env e)) tr = true -> run sg s tr = Some s' ->
   (length tr + mu L (pcs s') <= mu L (pcs s))%nat.
 Proof.
   induction tr as [|e tr IH]; intros s s' I HL F H; simpl in *.
@@ -345,7 +374,7 @@ Qed.
 Lemma bounded_completion sg r0 st0 tr s :
   run sg (init r0 st0) tr = Some s ->
   exists bound, forall tr' s',
-    forallb (fun e => negb (is_get e)) tr' = true -> run sg s tr' = Some s' ->
+    forallb (fun e => negb (is_env e)) tr' = true -> run sg s tr' = Some s' ->
     (length tr' <= bound)%nat.
 Proof.
   intro H. assert (I : InvS s) by (eapply runS; eauto using invS_init).
@@ -369,3 +398,83 @@ Proof. unfold sstep, tag_of. simpl. intros ->. auto. Qed.
 
 Lemma tag_distinct a b : s_digest a <> s_digest b -> tag_of a <> tag_of b.
 Proof. unfold tag_of. auto. Qed.
+
+(* ---------- "exactly the live manifests" fails for Push(A) || Delete(A) ---------- *)
+
+Definition race_A := mkDesc 1 0 0.
+Definition race_trace : list mevent :=
+  [MPut 1;                                   (* Push(A): manifest PUT (A was live already) *)
+   MIdx (EGet 0 (Remove race_A)); MIdx (EAssign 0);   (* Delete(A) fetched A and enters the index update *)
+   MIdx (EGet 1 (Add race_A)); MIdx (EAssign 1);      (* Push(A) joins the same batch *)
+   MIdx (ERecvMain 0); MIdx (EPrepare 0 false); MIdx (ECommit 0);   (* [Remove A; Add A] on [A]: no update *)
+   MIdx (EComplete 0); MIdx (EDone 0); MIdx (EDone 1);
+   MDel 1]%nat.                              (* Delete(A): manifest DELETE *)
+
+Lemma listing_is_live_refuted :
+  exists m, mrun false (init (Some [race_A]) [], [1]) race_trace = Some m /\
+    quiescent (fst m) /\
+    pcs (fst m) 0%nat = Done ROk /\ pcs (fst m) 1%nat = Done ROk /\
+    memb (reg (fst m)) 1 = true /\ is_live 1 m = false.
+Proof.
+  eexists. split; [vm_compute; reflexivity|]. split.
+  - intro t. do 2 (destruct t as [|t]; [right; eexists; reflexivity|]). left. reflexivity.
+  - repeat split.
+Qed.
+
+(* ---------- what Referrers() returns through the tag schema ---------- *)
+
+Lemma listing_is_fold sg r0 st0 tr s :
+  run sg (init r0 st0) tr = Some s ->
+  NoDup (keys (list_referrers (reg s) 0)) /\
+  Forall (fun d => nonempty d = true) (list_referrers (reg s) 0) /\
+  (forall k, In k (keys (list_referrers (reg s) 0)) <->
+             member_after k (memb r0 k) (map (arg s) (lin s)) = true) /\
+  (forall art d, In d (list_referrers (reg s) art) -> art = 0 \/ dart d = art).
+Proof.
+  intro H. destruct (reachable_inv _ _ _ _ _ H) as [I V].
+  destruct (list_referrers_spec (reg s) 0) as (A & B & _ & D).
+  split; auto. split; auto. split.
+  - intro k. rewrite D. rewrite <- (v_set _ _ V k). unfold memb, idx. reflexivity.
+  - intros art d Hd. destruct (list_referrers_spec (reg s) art) as (_ & _ & C & _). auto.
+Qed.
+
+(* ---------- sequential histories: the index lists exactly the live referrers ---------- *)
+
+Definition tracks (st : option index * list N) : Prop :=
+  forall k, memb (fst st) k = negb (k =? 0) && existsb (N.eqb k) (snd st).
+
+Lemma existsb_filter_neq k x l :
+  existsb (N.eqb k) (filter (fun y => negb (y =? x)) l) = negb (k =? x) && existsb (N.eqb k) l.
+Proof.
+  induction l as [|h t IH]; simpl; [now rewrite andb_false_r|].
+  destruct (h =? x) eqn:E; simpl.
+  - apply N.eqb_eq in E. subst h. rewrite IH. destruct (k =? x); reflexivity.
+  - rewrite IH. destruct (k =? h) eqn:E2; simpl; [|reflexivity].
+    apply N.eqb_eq in E2. subst h. now rewrite E.
+Qed.
+
+Lemma seq_op_tracks st c : dkey (cdesc c) <> 0 -> tracks st -> tracks (seq_op st c).
+Proof.
+  intros Hz T k. destruct st as [r live]. unfold tracks in T. simpl in T.
+  assert (F : changes_nonempty [c]) by (constructor; [exact Hz|constructor]).
+  assert (Hm : memb (match apply_changes (idx r) [c] with Updated l => Some l | NoUpdate => r end) k
+               = member_step k (memb r k) c).
+  { destruct (apply_changes (idx r) [c]) as [|l] eqn:E.
+    - pose proof (apply_noupdate_effect (idx r) [c] F E k) as H. unfold member_after in H. simpl in H.
+      unfold memb in *. simpl in *. exact H.
+    - pose proof (apply_updated_effect (idx r) [c] l F E k) as H. unfold member_after in H. simpl in H.
+      unfold memb in *. simpl in *. exact H. }
+  unfold seq_op. destruct c as [d|d]; simpl in *; rewrite Hm, (T k); simpl.
+  - destruct (dkey d =? k) eqn:E.
+    + apply N.eqb_eq in E. subst k. rewrite N.eqb_refl. simpl. apply N.eqb_neq in Hz. now rewrite Hz.
+    + rewrite (N.eqb_sym k (dkey d)), E. reflexivity.
+  - rewrite existsb_filter_neq. rewrite (N.eqb_sym k (dkey d)).
+    destruct (dkey d =? k); simpl; [now rewrite andb_false_r|reflexivity].
+Qed.
+
+Lemma sequential_listing_is_live cs : forall st,
+  changes_nonempty cs -> tracks st -> tracks (fold_left seq_op cs st).
+Proof.
+  induction cs as [|c t IH]; intros st F T; simpl; auto.
+  inversion F; subst. apply IH; auto. now apply seq_op_tracks.
+Qed.
